@@ -29,8 +29,8 @@ pub fn def() -> CheckDef {
     CheckDef {
         id: "C13",
         level: "fault_enumeration",
-        runs_quick: 150_000,
-        runs_thorough: 3_000_000,
+        runs_quick: 600_000,
+        runs_thorough: 15_000_000,
         rule: "fault injection of contract-violating calls: each of the seven rejected-call kinds is enumerated over every public type that exposes it (cts x6, block modes x12, async x4, byte streams x8, padded decrypt x6 with 5 paddings and 3 forms, four slice constructors over all types) with sampled sizes/positions, inside otherwise valid histories; plus a no-panic sweep of legal histories (every op alphabet, lengths 0,1,bs-1,bs,bs+1,many, block sizes 1..255, all IV classes, counter positions across the whole range, restart from valid exported state). distinct = distinct (fault kind, type, block size, cipher, sizes class, history shape); non-trivial = the injected call was executed (a) / >= 2 operations (b)",
         required_probes: &["cts_short", "cts_exactly_one_block_ok", "blocks_b2b_unequal", "async_b2b_unequal", "stream_b2b_unequal", "cts_b2b_unequal", "padded_dec_bad_len", "ctor_bad_key", "ctor_bad_iv", "ctor_ige_one_block_iv", "sweep_seek_far", "sweep_restart", "sweep_padded", "sweep_bs255", "sweep_bs1", "sweep_cts_valid_lengths", "sweep_cts_width_1"],
         r#gen,
